@@ -167,8 +167,33 @@ INT_TYS = ("usize", "u64", "isize", "i64", "u32", "i32")
 def skeleton(facts, body):
     """Integer skeleton of a method: loop headers, integer lets, indexed stores/loads (positions of data)."""
     out = []
+    # integer lets matter only when they (transitively) feed a loop header or an index expression
+    lets = {x["pat"]["lid"]: x for x in walk(body, into_closures=True)
+            if x.get("k") == "Let" and "init" in x and x["pat"].get("k") == "PBind"}
+    live = set()
+    work = []
     for x in walk(body, into_closures=True):
         k = x.get("k")
+        if k == "For":
+            work.append(x["iter"])
+        elif k == "While":
+            work.append(x["c"])
+        elif k == "Index":
+            work.append(x["i"])
+        elif k == "AssignOp" and facts.ty(x["lhs"]) in INT_TYS:
+            work.append(x["lhs"])
+            work.append(x["rhs"])
+    while work:
+        e = work.pop()
+        for y in walk(e):
+            if y.get("k") == "Path" and y.get("res") == "local" and y["lid"] not in live:
+                live.add(y["lid"])
+                if y["lid"] in lets:
+                    work.append(lets[y["lid"]]["init"])
+    for x in walk(body, into_closures=True):
+        k = x.get("k")
+        if k == "Let" and x.get("pat", {}).get("k") == "PBind" and x["pat"]["lid"] not in live:
+            continue
         if k == "For":
             out.append("for %s in %s" % (render_pat(x["pat"]), render(x["iter"])))
         elif k == "While":
